@@ -97,29 +97,30 @@ macro_rules! from_signed_bytes_shape {
         }
     };
 }
-// to_signed_bytes_le / be, compositionally: BigUint::to_bytes_le/be (decided by c09_*_to_bytes_*) are replaced by a model
-// returning NB (concrete) arbitrary bytes with a non-zero top byte; the result must decode to +/- that magnitude and be
-// the SHORTEST two's-complement encoding.
-static mut GH_BYTES: [u8; 17] = [0; 17];
-fn to_bytes_le_model<const NB: usize>(_u: &BigUint) -> Vec<u8> {
-    let b: [u8; NB] = kani::any();
-    kani::assume(NB == 1 || b[NB - 1] != 0);
+// to_signed_bytes_le / be: BigUint::to_bytes_le/be (decided by c09_*_to_bytes_*) are replaced by a CASE-SPLIT model that returns
+// exactly the first NB bytes of the magnitude under assume(byte length == NB) - a deterministic function of the value, so the
+// magnitude bytes stay consistent with the BigInt and a counterexample replays natively with the real functions.
+// The result must decode to the value and be the SHORTEST two's-complement encoding.
+fn to_bytes_le_pinned<const NB: usize>(u: &BigUint) -> Vec<u8> {
+    let d = vc::digits(u);
+    kani::assume(byte_len(d) == NB || (d.is_empty() && NB == 1));
+    let mut b = [0u8; NB];
     let mut i = 0;
     while i < NB {
-        unsafe { GH_BYTES[i] = b[i]; }
+        b[i] = byte_of(d, i);
         i += 1;
     }
     b.to_vec()
 }
-fn to_bytes_be_model<const NB: usize>(u: &BigUint) -> Vec<u8> {
-    let mut v = to_bytes_le_model::<NB>(u);
+fn to_bytes_be_pinned<const NB: usize>(u: &BigUint) -> Vec<u8> {
+    let mut v = to_bytes_le_pinned::<NB>(u);
     v.reverse();
     v
 }
 macro_rules! bytes_models {
     ($le:ident, $be:ident, $nb:expr) => {
-        pub(crate) fn $le(u: &BigUint) -> Vec<u8> { to_bytes_le_model::<$nb>(u) }
-        pub(crate) fn $be(u: &BigUint) -> Vec<u8> { to_bytes_be_model::<$nb>(u) }
+        pub(crate) fn $le(u: &BigUint) -> Vec<u8> { to_bytes_le_pinned::<$nb>(u) }
+        pub(crate) fn $be(u: &BigUint) -> Vec<u8> { to_bytes_be_pinned::<$nb>(u) }
     };
 }
 bytes_models!(tbl_1, tbb_1, 1);
@@ -128,49 +129,25 @@ bytes_models!(tbl_3, tbb_3, 3);
 bytes_models!(tbl_8, tbb_8, 8);
 bytes_models!(tbl_9, tbb_9, 9);
 bytes_models!(tbl_16, tbb_16, 16);
+bytes_models!(tbl_17, tbb_17, 17);
 
 macro_rules! to_signed_bytes_shape {
-    ($name:ident, $neg:expr, $nb:expr, $w:expr, $tbl:ident, $tbb:ident, $be:expr) => {
+    ($name:ident, $neg:expr, $nb:expr, $l:expr, $w:expr, $tbl:ident, $tbb:ident, $be:expr) => {
         #[kani::proof]
-        #[kani::unwind(34)]
+        #[kani::unwind(40)]
         #[kani::stub(crate::biguint::BigUint::to_bytes_le, $tbl)]
-        #[kani::stub(crate::biguint::verif_common::symbolic, crate::biguint::verif_common::yes)]
         #[kani::stub(crate::biguint::BigUint::to_bytes_be, $tbb)]
         fn $name() {
-            let a0: [u64; 1] = vc::any_canon::<1>();
+            let a0: [u64; $l] = vc::any_canon::<$l>();
+            kani::assume(byte_len(&a0) == $nb);
             let x = mkint($neg, &a0);
+            let t = tc::<$w>(&x);
             let mut out = if $be { x.to_signed_bytes_be() } else { x.to_signed_bytes_le() };
             if $be {
                 out.reverse();
             }
             let n = out.len();
-            if !vc::symbolic() {
-                // native replay: the magnitude bytes come from the real to_bytes_le of the concrete value
-                let real = x.magnitude().to_bytes_le();
-                let t = tc::<$w>(&x);
-                kani::assert(eq_w(&window_of_signed::<$w>(&out), &t), "VERIF to_signed_bytes does not decode to the value");
-                if n >= 2 {
-                    let top = out[n - 1];
-                    let next_msb = out[n - 2] > 0x7f;
-                    kani::assert(!(top == 0x00 && !next_msb) && !(top == 0xff && next_msb), "VERIF to_signed_bytes is not the shortest encoding");
-                }
-                let _ = real;
-                return;
-            }
             kani::assert(n == $nb || n == $nb + 1, "VERIF to_signed_bytes length out of range");
-            // magnitude window from the model bytes
-            let mut m = [0u64; $w];
-            let mut i = 0;
-            let mut zero = true;
-            while i < $nb {
-                let b = unsafe { GH_BYTES[i] };
-                if b != 0 {
-                    zero = false;
-                }
-                m[i / 8] |= (b as u64) << (8 * (i % 8));
-                i += 1;
-            }
-            let t = vc::ref_tc::<$w>($neg && !zero, &m);
             kani::assert(eq_w(&window_of_signed::<$w>(&out), &t), "VERIF to_signed_bytes does not decode to the value");
             if n >= 2 {
                 let top = out[n - 1];
@@ -296,30 +273,34 @@ to_digits_shape!(c09_t_to_digits_p3, false, 3);
 to_digits_shape!(c09_q_to_digits_m1, true, 1);
 to_digits_shape!(c09_q_to_digits_m2, true, 2);
 to_digits_shape!(c09_t_to_digits_m3, true, 3);
-to_signed_bytes_shape!(c09_q_to_signed_bytes_le_p1, false, 1, 2, tbl_1, tbb_1, false);
-to_signed_bytes_shape!(c09_t_to_signed_bytes_be_p1, false, 1, 2, tbl_1, tbb_1, true);
-to_signed_bytes_shape!(c09_q_to_signed_bytes_le_p2, false, 2, 2, tbl_2, tbb_2, false);
-to_signed_bytes_shape!(c09_q_to_signed_bytes_be_p2, false, 2, 2, tbl_2, tbb_2, true);
-to_signed_bytes_shape!(c09_t_to_signed_bytes_le_p3, false, 3, 2, tbl_3, tbb_3, false);
-to_signed_bytes_shape!(c09_t_to_signed_bytes_be_p3, false, 3, 2, tbl_3, tbb_3, true);
-to_signed_bytes_shape!(c09_q_to_signed_bytes_le_p8, false, 8, 3, tbl_8, tbb_8, false);
-to_signed_bytes_shape!(c09_t_to_signed_bytes_be_p8, false, 8, 3, tbl_8, tbb_8, true);
-to_signed_bytes_shape!(c09_q_to_signed_bytes_le_p9, false, 9, 3, tbl_9, tbb_9, false);
-to_signed_bytes_shape!(c09_q_to_signed_bytes_be_p9, false, 9, 3, tbl_9, tbb_9, true);
-to_signed_bytes_shape!(c09_t_to_signed_bytes_le_p16, false, 16, 4, tbl_16, tbb_16, false);
-to_signed_bytes_shape!(c09_t_to_signed_bytes_be_p16, false, 16, 4, tbl_16, tbb_16, true);
-to_signed_bytes_shape!(c09_q_to_signed_bytes_le_m1, true, 1, 2, tbl_1, tbb_1, false);
-to_signed_bytes_shape!(c09_t_to_signed_bytes_be_m1, true, 1, 2, tbl_1, tbb_1, true);
-to_signed_bytes_shape!(c09_q_to_signed_bytes_le_m2, true, 2, 2, tbl_2, tbb_2, false);
-to_signed_bytes_shape!(c09_q_to_signed_bytes_be_m2, true, 2, 2, tbl_2, tbb_2, true);
-to_signed_bytes_shape!(c09_t_to_signed_bytes_le_m3, true, 3, 2, tbl_3, tbb_3, false);
-to_signed_bytes_shape!(c09_t_to_signed_bytes_be_m3, true, 3, 2, tbl_3, tbb_3, true);
-to_signed_bytes_shape!(c09_q_to_signed_bytes_le_m8, true, 8, 3, tbl_8, tbb_8, false);
-to_signed_bytes_shape!(c09_t_to_signed_bytes_be_m8, true, 8, 3, tbl_8, tbb_8, true);
-to_signed_bytes_shape!(c09_q_to_signed_bytes_le_m9, true, 9, 3, tbl_9, tbb_9, false);
-to_signed_bytes_shape!(c09_q_to_signed_bytes_be_m9, true, 9, 3, tbl_9, tbb_9, true);
-to_signed_bytes_shape!(c09_t_to_signed_bytes_le_m16, true, 16, 4, tbl_16, tbb_16, false);
-to_signed_bytes_shape!(c09_t_to_signed_bytes_be_m16, true, 16, 4, tbl_16, tbb_16, true);
+to_signed_bytes_shape!(c09_q_to_signed_bytes_le_p1, false, 1, 1, 2, tbl_1, tbb_1, false);
+to_signed_bytes_shape!(c09_t_to_signed_bytes_be_p1, false, 1, 1, 2, tbl_1, tbb_1, true);
+to_signed_bytes_shape!(c09_q_to_signed_bytes_le_p2, false, 2, 1, 2, tbl_2, tbb_2, false);
+to_signed_bytes_shape!(c09_q_to_signed_bytes_be_p2, false, 2, 1, 2, tbl_2, tbb_2, true);
+to_signed_bytes_shape!(c09_t_to_signed_bytes_le_p3, false, 3, 1, 2, tbl_3, tbb_3, false);
+to_signed_bytes_shape!(c09_t_to_signed_bytes_be_p3, false, 3, 1, 2, tbl_3, tbb_3, true);
+to_signed_bytes_shape!(c09_q_to_signed_bytes_le_p8, false, 8, 1, 2, tbl_8, tbb_8, false);
+to_signed_bytes_shape!(c09_t_to_signed_bytes_be_p8, false, 8, 1, 2, tbl_8, tbb_8, true);
+to_signed_bytes_shape!(c09_q_to_signed_bytes_le_p9, false, 9, 2, 3, tbl_9, tbb_9, false);
+to_signed_bytes_shape!(c09_q_to_signed_bytes_be_p9, false, 9, 2, 3, tbl_9, tbb_9, true);
+to_signed_bytes_shape!(c09_q_to_signed_bytes_le_p16, false, 16, 2, 3, tbl_16, tbb_16, false);
+to_signed_bytes_shape!(c09_q_to_signed_bytes_be_p16, false, 16, 2, 3, tbl_16, tbb_16, true);
+to_signed_bytes_shape!(c09_t_to_signed_bytes_le_p17, false, 17, 3, 4, tbl_17, tbb_17, false);
+to_signed_bytes_shape!(c09_t_to_signed_bytes_be_p17, false, 17, 3, 4, tbl_17, tbb_17, true);
+to_signed_bytes_shape!(c09_q_to_signed_bytes_le_m1, true, 1, 1, 2, tbl_1, tbb_1, false);
+to_signed_bytes_shape!(c09_t_to_signed_bytes_be_m1, true, 1, 1, 2, tbl_1, tbb_1, true);
+to_signed_bytes_shape!(c09_q_to_signed_bytes_le_m2, true, 2, 1, 2, tbl_2, tbb_2, false);
+to_signed_bytes_shape!(c09_q_to_signed_bytes_be_m2, true, 2, 1, 2, tbl_2, tbb_2, true);
+to_signed_bytes_shape!(c09_t_to_signed_bytes_le_m3, true, 3, 1, 2, tbl_3, tbb_3, false);
+to_signed_bytes_shape!(c09_t_to_signed_bytes_be_m3, true, 3, 1, 2, tbl_3, tbb_3, true);
+to_signed_bytes_shape!(c09_q_to_signed_bytes_le_m8, true, 8, 1, 2, tbl_8, tbb_8, false);
+to_signed_bytes_shape!(c09_t_to_signed_bytes_be_m8, true, 8, 1, 2, tbl_8, tbb_8, true);
+to_signed_bytes_shape!(c09_q_to_signed_bytes_le_m9, true, 9, 2, 3, tbl_9, tbb_9, false);
+to_signed_bytes_shape!(c09_q_to_signed_bytes_be_m9, true, 9, 2, 3, tbl_9, tbb_9, true);
+to_signed_bytes_shape!(c09_q_to_signed_bytes_le_m16, true, 16, 2, 3, tbl_16, tbb_16, false);
+to_signed_bytes_shape!(c09_q_to_signed_bytes_be_m16, true, 16, 2, 3, tbl_16, tbb_16, true);
+to_signed_bytes_shape!(c09_t_to_signed_bytes_le_m17, true, 17, 3, 4, tbl_17, tbb_17, false);
+to_signed_bytes_shape!(c09_t_to_signed_bytes_be_m17, true, 17, 3, 4, tbl_17, tbb_17, true);
 from_u32_shape!(c09_q_from_u32_0, 0, 1);
 from_u32_shape!(c09_q_from_u32_1, 1, 1);
 from_u32_shape!(c09_q_from_u32_2, 2, 2);
